@@ -354,6 +354,8 @@ pub struct Profile {
     pub sparse_ids: bool,
     /// probability that a round is a bulk load of 201..=bulk_max items (memory-batch boundaries)
     pub p_bulk: f64,
+    /// probability that a later round consists of 1-4 deletions only, built with the automatic tree count
+    pub p_del_only_round: f64,
     pub bulk_max: usize,
     /// probability that an add over a live id writes a same-value / different-bits variant of the stored vector
     pub p_variant_overwrite: f64,
@@ -387,6 +389,7 @@ impl Profile {
             change_metric: false,
             sparse_ids: true,
             p_bulk: 0.0,
+            p_del_only_round: 0.0,
             bulk_max: 600,
             p_variant_overwrite: 0.0,
             p_cancelled_first_build: 0.0,
@@ -587,6 +590,23 @@ pub fn gen_case(seed: u64, p: &Profile) -> Case {
                 rng.gen_range(p.ops_per_round.0..=p.ops_per_round.1)
             }
         };
+        // a round of removals only: the automatic tree count n/(n/d+1) is not monotone in n, so such a build
+        // may have to create trees although nothing was inserted
+        let mut del_only_ix: Option<usize> = None;
+        let n_ops = if round > 0 && p.p_del_only_round > 0.0 && rng.gen_bool(p.p_del_only_round) {
+            let ix = rng.gen_range(0..n_ix);
+            if live[ix].len() > 1 {
+                for _ in 0..rng.gen_range(1..=4usize).min(live[ix].len() - 1) {
+                    let k = rng.gen_range(0..live[ix].len());
+                    let id = live[ix].swap_remove(k);
+                    ops.push(Op::Del { ix, id });
+                }
+                del_only_ix = Some(ix);
+            }
+            0
+        } else {
+            n_ops
+        };
         for _ in 0..n_ops {
             let ix = rng.gen_range(0..n_ix);
             let dims = model.ix[ix].dims;
@@ -676,6 +696,9 @@ pub fn gen_case(seed: u64, p: &Profile) -> Case {
                 }
             }
             let mut o = opts[ix].clone();
+            if del_only_ix == Some(ix) {
+                o.n_trees = None;
+            }
             // automatic tree counts grow with the dimension (~min(n, dims) trees): keep big live sets affordable
             if o.n_trees.is_none() && live[ix].len() > 200 && model.ix[ix].dims > 16 {
                 o.n_trees = Some(3);
@@ -762,6 +785,16 @@ pub fn run_build<D: Distance>(
     let polls_in_step = AtomicU64::new(0);
     let mut rng = StdRng::seed_from_u64(opts.rng_seed);
     let pool = pool(opts.threads);
+    start_stall_monitor();
+    struct Active;
+    impl Drop for Active {
+        fn drop(&mut self) {
+            BUILDS_ACTIVE.fetch_sub(1, Ordering::Relaxed);
+        }
+    }
+    BUILD_PROGRESS.fetch_add(1, Ordering::Relaxed);
+    BUILDS_ACTIVE.fetch_add(1, Ordering::Relaxed);
+    let _active = Active;
     let r = guarded(|| {
         pool.install(|| {
             let mut b = writer.builder(&mut rng);
@@ -775,9 +808,11 @@ pub fn run_build<D: Distance>(
                 b.available_memory(mem);
             }
             b.progress(|pr| {
+                BUILD_PROGRESS.fetch_add(1, Ordering::Relaxed);
                 step_now.store(pr.main as u8, Ordering::Relaxed);
             });
             b.cancel(|| {
+                BUILD_PROGRESS.fetch_add(1, Ordering::Relaxed);
                 if warm.load(Ordering::Relaxed) {
                     return true;
                 }
@@ -1029,6 +1064,65 @@ pub fn foreign_answers(rtxn: &RoTxn, db: RawDb, model: &Model, op_ix: usize, aga
         }
         Some((j, ladder, answers))
     })
+}
+
+// ------------------------------------------------------------------------------------------------
+// stall monitor: a build that burns CPU without a single progress event
+
+/// progress events of builds in this process (cancellation polls, progress callbacks)
+pub static BUILD_PROGRESS: std::sync::atomic::AtomicU64 = std::sync::atomic::AtomicU64::new(0);
+/// builds currently running in this process
+pub static BUILDS_ACTIVE: std::sync::atomic::AtomicU64 = std::sync::atomic::AtomicU64::new(0);
+/// what to blame: (property, case seed, description of the build)
+pub static STALL_CONTEXT: std::sync::Mutex<Option<(String, String, String)>> = std::sync::Mutex::new(None);
+
+fn process_cpu_seconds() -> f64 {
+    let mut ts = libc::timespec { tv_sec: 0, tv_nsec: 0 };
+    unsafe {
+        libc::clock_gettime(libc::CLOCK_PROCESS_CPUTIME_ID, &mut ts);
+    }
+    ts.tv_sec as f64 + ts.tv_nsec as f64 * 1e-9
+}
+
+/// Starts (once) a thread that watches builds run by `run_build`: if the process consumes `limit` seconds of
+/// CPU time (not wall-clock time: a loaded machine does not advance it) while a build is running and not one
+/// cancellation poll or progress callback arrives, the build is spinning in a loop that asks nobody: that is
+/// reported as a violation for the case being run and the process is aborted (the thread cannot be recovered).
+pub fn start_stall_monitor() {
+    static STARTED: std::sync::Once = std::sync::Once::new();
+    STARTED.call_once(|| {
+        let limit: f64 = std::env::var("VERIF_STALL_CPU_S").ok().and_then(|s| s.parse().ok()).unwrap_or(90.0);
+        std::thread::spawn(move || {
+            let mut last = u64::MAX;
+            let mut cpu_at = 0f64;
+            loop {
+                std::thread::sleep(std::time::Duration::from_millis(250));
+                if BUILDS_ACTIVE.load(Ordering::Relaxed) == 0 {
+                    last = u64::MAX;
+                    continue;
+                }
+                let p = BUILD_PROGRESS.load(Ordering::Relaxed);
+                let cpu = process_cpu_seconds();
+                if p != last {
+                    last = p;
+                    cpu_at = cpu;
+                } else if cpu - cpu_at > limit {
+                    let ctx = STALL_CONTEXT.lock().map(|g| g.clone()).unwrap_or(None);
+                    let (prop, case, desc) = ctx.unwrap_or(("?".into(), "?".into(), "?".into()));
+                    crate::emit(
+                        "VIOL",
+                        &crate::util::J::obj()
+                            .set("property", crate::util::J::s(prop))
+                            .set("case_seed", crate::util::J::s(case))
+                            .set("key", crate::util::J::s("build:stalled"))
+                            .set("step", crate::util::J::i(0))
+                            .set("msg", crate::util::J::s(format!("{desc} consumed {:.0} s of CPU time without a single cancellation poll or progress callback: it spins in a loop that never asks whether to stop (the process is aborted)", cpu - cpu_at))),
+                    );
+                    std::process::abort();
+                }
+            }
+        });
+    });
 }
 
 pub fn check_staleness(rtxn: &RoTxn, db: RawDb, m: &IndexModel, rng: &mut StdRng, c: &mut Counters) -> Result<(), String> {
@@ -1594,6 +1688,11 @@ impl Engine<'_> {
         let limit = poll_bound(n, trees_bound, batches);
         let loop_limit = loop_bound(n, trees_bound);
         // one build in five goes through a builder that was cancelled once before (at its first poll)
+        if let Ok(mut g) = STALL_CONTEXT.lock() {
+            if let Some(c) = g.as_mut() {
+                c.2 = format!("{desc} over {n} items ({} {}d)", metric.short(), dims);
+            }
+        }
         let warmup = opts.rng_seed % 5 == 0;
         if warmup {
             self.c.inc("builds_on_a_reused_builder");
